@@ -79,8 +79,8 @@ PROPS = {
         classify=_c07_classes, nontrivial=_c07_nontrivial,
         rule='three kinds of cases in one run. (a) codec: the real pack_ptr_and_len / unpack_ptr_and_len / pack_exists_size_result / '
              'unpack_exists_size_result of fuel-core-wasm-executor on all products of 14 u32 and 8 u16 boundary values, every single-bit / '
-             'all-but-one-bit / low-mask u64, four 16-bit windows (0.., 0x7fff8000.., 0xffff0000.., one random; stride 97 in quick, '
-             'exhaustive in thorough), all u16 result codes (strided in quick) and random 64-bit values, compared with the Gallina model and '
+             'all-but-one-bit / low-mask u64, four 16-bit windows (0.., 0xffff0000.., 0x7fff8000.., one random; stride 97 in quick; in thorough the first two '
+             'exhaustively, the others with stride 5), all u16 result codes (strided in quick) and random 64-bit values, compared with the Gallina model and '
              'checked for round trip. (b) host protocol: a straight-line WASM guest assembled per case with wasm-encoder issues 1-16 raw host '
              'calls (input, peek v0/v1, consume, storage_size_of_value, storage_get, relayer_enabled/size/get) against the REAL host '
              'functions of instance.rs over mock views (storage rows present/absent/failing with values of 0..300 bytes, relayer rows '
